@@ -87,7 +87,7 @@ structure Core where
   count : Nat
   proposals : AMap Nat Proposal
   ballots : AMap Nat (AMap Addr Ballot)
-  deriving Repr, Inhabited
+  deriving Repr, DecidableEq, Inhabited
 
 def Core.empty : Core := ⟨0, [], []⟩
 
@@ -125,10 +125,9 @@ def afterChecked (d : Duration) (blk : Block) : Res Expiration :=
 is later (`partial_cmp = Some(Greater)`), refused when incomparable (`None`).  A `latest`
 that already lies in the past is accepted. -/
 def chooseExpiry (maxE : Expiration) (latest : Option Expiration) : Res Expiration :=
-  let e := latest.getD maxE
-  match e.cmp? maxE with
+  match (latest.getD maxE).cmp? maxE with
   | some .gt => .ok maxE
-  | some _ => .ok e
+  | some _ => .ok (latest.getD maxE)
   | none => .error "wrong_expiration"
 
 /-- `Some(power) if power >= 1`, else `Unauthorized`. -/
